@@ -324,8 +324,13 @@ class SeekableStreamReaderWrapper(TellableStreamWrapper):
 
     async def seek(self, offset: int) -> None:
         if offset > self.position:
-            await self.stream.read(offset - self.position)
-            self.position = offset
+            # A stream may return fewer bytes than requested: keep reading
+            # until the gap is skipped or the stream is exhausted
+            while self.position < offset:
+                buf = await self.stream.read(offset - self.position)
+                if len(buf) == 0:
+                    break
+                self.position += len(buf)
         elif offset < self.position:
             raise tarfile.ReadError("Cannot seek backward with streams")
 
